@@ -34,6 +34,8 @@ Logged(r) ==
     [] r.ev = "onsend"   -> SMBatchUpdate /\ Head(bu) = r.e /\ pol'.cbe = r.cbe
                             /\ (pc' = "emit") = (r.res = "retry")
     [] r.ev = "hasreq"   -> ReaderCheck /\ rdv' = r.res
+    [] r.ev = "drop"     -> /\ cons = "sending" /\ cons' = "idle"     \* driver gave up after a blocked UpdateBatch
+                            /\ UNCHANGED <<smvars, cur, batch, used, sig, sum, tout, ticks, nerrs, nres, obs, hist>>
     [] OTHER             -> UNCHANGED vars          \* end, update_blocked
 
 Silent == \/ SMEmit
